@@ -261,6 +261,22 @@ def unwinder_semantics(ctx, run):
               U, "stop-test", fn.file, stops[0].ln if stops else fn.lo,
               "a jump to a scope must run the defers that scope has registered SO FAR (and only those): the unwinder has to compile the target frame's defers and then stop. " + detail)
 
+    # S1b: the frame loop is left only because the target frame was reached (or the stack is empty): any other way out - a test on a property of the
+    # visited frame, on a flag - stops the unwinding before the target, and the defers in between never run on that path
+    for u, v in fn.loop_exit_edges(h, body):
+        t = fn.blocks[u]["t"]
+        if fn.blocks[v].get("cleanup") or t["k"] != "switch":
+            continue
+        ch = fn.switch_operand(u, depth=10) or {}
+        calls_ = [short(x["callee"]) for x in chain_calls(ch)]
+        is_stop = any(x.get("kind") == "call" and short(x["callee"]) == "eq" and "ScopeId" in (x.get("ga") or "") for x in walk_chain(ch))
+        is_exhausted = ch.get("kind") == "discr" and any(c_ in calls_ for c_ in ("last", "pop", "last_mut", "next", "cloned")) and not is_stop
+        ln_ = t.get("ln", fn.lo)
+        run.check(is_stop or is_exhausted, "%s:%d" % (fn.file, ln_), "the frame loop is left at line %d because %s" % (ln_, "the target frame was reached" if is_stop else "no frame is left"),
+                  U, "only-exit-is-the-target", fn.file, ln_,
+                  "the unwinder's frame loop can be left at line %d on a test that is neither `this frame is the target` nor `no frame is left` (%s): a jump that crosses such a "
+                  "frame stops unwinding early and the defers between that frame and the target never run on that path" % (ln_, show_chain(ch, 5)[:80]))
+
     # S2: frames are left intact (they are left again, later, on the other paths)
     touched = []
     for i, blk in enumerate(fn.blocks):
